@@ -50,6 +50,8 @@ def violations_for(prop, F, cfg='default'):
     ctx = engine.Ctx(prop, 'quick', {cfg: F})
     ctx.F = F
     ctx.config = cfg
+    import rules
+    rules.set_facts(F)
     mod.run(ctx)
     return [o for o in ctx.obligations if o['status'] == 'violation']
 
